@@ -181,8 +181,8 @@ theorem C18_create_upload_refines_partial (H : Hashes) (dl : Nat) {s : State} (h
     Inv (step H dl s (.createMultipartUpload who b k md)).1 := createUpload_refines H dl hi hg
 
 /-- upload_part: only the creating identity may add a part (`AccessDenied` otherwise); an upload that does not exist — never
-    issued, completed, aborted, or an id that is no UUID — is `NoSuchUpload` on both sides (38336b0; before:
-    fs:unknown-upload-code); a part number outside 1..10000 is `InvalidArgument` on both sides (531fc88; before, numbers below
+    issued, completed, aborted, or an id that is no UUID — is `NoSuchUpload` on both sides (4609ab3; before:
+    fs:unknown-upload-code); a part number outside 1..10000 is `InvalidArgument` on both sides (205d9a8; before, numbers below
     1 were accepted: fs:part-number-not-validated). Partial — excluded only: another key than the upload's
     (fs:upload-not-bound-to-key) -/
 theorem C18_upload_part_refines_partial (H : Hashes) (dl : Nat) {s : State} (hi : Inv s) {who : Who} {b k : Bytes}
@@ -194,7 +194,7 @@ theorem C18_upload_part_refines_partial (H : Hashes) (dl : Nat) {s : State} (hi 
 /-- upload_part_copy: the part becomes the source object, or its `bytes=first-last` slice. Partial — excluded: ranges the
     store refuses but the backend accepts (open-ended, beyond the end: fs:part-copy-range-unchecked; malformed ranges
     are not covered), another key than the upload's (fs:upload-not-bound-to-key); a part number outside 1..10000 is
-    `InvalidArgument` (531fc88; before it was not checked: fs:part-number-not-validated), an upload that does not exist
+    `InvalidArgument` (205d9a8; before it was not checked: fs:part-number-not-validated), an upload that does not exist
     `NoSuchUpload`, on both sides -/
 theorem C18_upload_part_copy_refines_partial (H : Hashes) (dl : Nat) {s : State} (hi : Inv s) {who : Who} {b k : Bytes}
     {u : UploadRef} {n : Int} {sb sk : Bytes} {range : Option Bytes} (hg : UploadPartCopyOk s b k u n sb sk range) :
@@ -204,7 +204,7 @@ theorem C18_upload_part_copy_refines_partial (H : Hashes) (dl : Nat) {s : State}
       (StoreSpec.step H (abs s) (.uploadPartCopy who b k u n sb sk range)).1 ∧
     Inv (step H dl s (.uploadPartCopy who b k u n sb sk range)).1 := uploadPartCopy_refines H dl hi hg
 
-/-- list_parts (part numbers and sizes, ascending); of an upload that does not exist: `NoSuchUpload` on both sides (38336b0;
+/-- list_parts (part numbers and sizes, ascending); of an upload that does not exist: `NoSuchUpload` on both sides (4609ab3;
     before, an empty list: fs:list-parts-unknown-upload). Partial — excluded: another key than the upload's
     (fs:upload-not-bound-to-key); the order in which the real code returns parts is not part of the model
     (fs:list-parts-unordered) -/
@@ -216,12 +216,12 @@ theorem C18_list_parts_refines_partial (H : Hashes) (dl : Nat) {s : State} (hi :
 
 /-- complete_multipart_upload: the object becomes the concatenation of the listed parts in part order with the upload's
     metadata, the upload is gone; an identity other than the creator gets `AccessDenied` and changes nothing; an upload that
-    does not exist is `NoSuchUpload` on both sides (38336b0); a complete by
+    does not exist is `NoSuchUpload` on both sides (4609ab3); a complete by
     the owner that names a part that was never uploaded (`InvalidPart`) or whose parts other than the last are below the
     minimum size (`EntityTooSmall`) is answered alike and changes nothing — the upload stays and can be completed later
     (before the repair the upload was consumed first: fs:failed-complete-consumes-upload, and a missing part was
     `InternalError`: fs:complete-missing-part-internal-error); the metadata and the checksums of an object it replaces
-    are replaced with it — by the upload's metadata, or none, and by no checksums (cf67827; before:
+    are replaced with it — by the upload's metadata, or none, and by no checksums (47e9b00; before:
     fs:stale-metadata-after-complete, fs:stale-checksum-after-complete). Partial — excluded: part lists other than 1..m
     (fs:complete-requires-consecutive-parts, fs:complete-part-list-validation), fs:complete-into-missing-bucket -/
 theorem C18_complete_refines_partial (H : Hashes) (dl : Nat) {s : State} (hi : Inv s) {who : Who} {b k : Bytes}
